@@ -63,6 +63,16 @@ def rule_merge_op(ctx, rep):
                 m = ctx.prog.lookup_method(t, "__or__")
                 ok = m is not None and _merging(ctx, m)[0]
                 rep.check("R-MERGE-OP", fn.qname, fn.loc(n), ok, f"| on {t.split('.')[-1]}", f"`{unparse(n)}` does not dispatch to a merging __or__")
+            elif isinstance(n, ast.Call) and isinstance(n.func, ast.Attribute) and n.func.attr == "update":
+                # dict.update on a result set: the inherited, shallow one (a rule id present on both sides keeps only the argument's files)
+                t = r.type_of(n.func.value) if isinstance(n.func.value, (ast.Name, ast.Attribute, ast.Call)) else None
+                if not _is_resultset(ctx, t):
+                    continue
+                own = ctx.prog.lookup_method(t, "update")
+                ok = own is not None and _merging(ctx, own)[0]
+                rep.check("R-MERGE-OP", fn.qname, fn.loc(n), ok, f"update on {t.split('.')[-1]}",
+                          f"`{unparse(n)[:70]}` combines result sets with dict.update: for a rule id found in both, the files of the earlier one are "
+                          "replaced wholesale (findings of whole files vanish); the hierarchy's merging operators are `|` / `|=`")
 
 
 def _keys_operand(side: ast.expr) -> str | None:
